@@ -22,7 +22,10 @@ def drop(d):
 
 
 def run_demo(d, demo):
-    r = subprocess.run([PY, demo], env=dict(os.environ, PYTHONPATH=os.path.join(d, 'src')), capture_output=True, text=True, timeout=600, cwd=d)
+    try:
+        r = subprocess.run([PY, demo], env=dict(os.environ, PYTHONPATH=os.path.join(d, 'src')), capture_output=True, text=True, timeout=180, cwd=d)
+    except subprocess.TimeoutExpired:
+        return 124, 'demo did not finish within 180 s (non-termination)'
     return r.returncode, (r.stdout + r.stderr)[-400:]
 
 
